@@ -652,7 +652,8 @@ class NB:
         n_cell = d(st.one_of(st.integers(1, 8), st.integers(1, 24), st.sampled_from([4, 8, 16, 17, 32])))
         seed = d(st.integers(0, 1 << 30))
         ws = d(st.sampled_from([0.01, 0.005, 0.02, 0.0078125]))
-        hq = self.quant("int8")
+        adt = X["dtype"]  # int8, or int16 activations with 8-bit weights and 64-bit biases
+        hq = self.quant(adt)
         ins = [x]
         for k in range(4):
             ins.append(self.t("lstm_w_in%d" % k, [n_cell, f], "int8", ws, 0, self.wdata("int8", seed + k)))
@@ -660,15 +661,15 @@ class NB:
             ins.append(self.t("lstm_w_re%d" % k, [n_cell, n_cell], "int8", ws, 0, self.wdata("int8", seed + 4 + k)))
         ins += [-1, -1, -1]
         for k in range(4):
-            ins.append(self.t("lstm_b%d" % k, [n_cell], "int32", float(ws) * float(X["scale"]), 0, dict(seed=seed + 8 + k, lo=-2000, hi=2000)))
+            ins.append(self.t("lstm_b%d" % k, [n_cell], "int32" if adt == "int8" else "int64", float(ws) * float(X["scale"]), 0, dict(seed=seed + 8 + k, lo=-2000, hi=2000)))
         ins += [-1, -1]
-        ins.append(self.t("lstm_out_state", [n_batch, n_cell], "int8", hq[0], hq[1], is_variable=True))
+        ins.append(self.t("lstm_out_state", [n_batch, n_cell], adt, hq[0], hq[1], is_variable=True))
         cell_scale = 2.0 ** -d(st.sampled_from([11, 12, 10, 13, 15]))
         ins.append(self.t("lstm_cell_state", [n_batch, n_cell], "int16", cell_scale, 0, is_variable=True))
         ins += [-1, -1, -1, -1]
         inter = [self.t("lstm_im%d" % k, [], "int16", 2.0 ** -12, 0) for k in range(4)]
-        inter.append(self.t("lstm_hidden", [], "int8", hq[0], hq[1]))
-        o = self.out("lstm", [a, b_, n_cell], "int8", hq)
+        inter.append(self.t("lstm_hidden", [], adt, hq[0], hq[1]))
+        o = self.out("lstm", [a, b_, n_cell], adt, hq)
         fields = dict(FusedActivationFunction=4, CellClip=d(st.sampled_from([0.0, 0.0, 10.0, 1.0, 0.5])), ProjClip=0.0, TimeMajor=time_major, AsymmetricQuantizeInputs=False)
         self.op("UNIDIRECTIONAL_SEQUENCE_LSTM", ins, [o], "UnidirectionalSequenceLSTMOptions", fields, version=3, intermediates=inter)
         return o
@@ -731,6 +732,10 @@ FLOAT_OPS = [
 def network(profile="exact", max_ops=6, dtypes=("int8", "int8", "int8", "uint8", "int16"), big=False):
     from hypothesis import strategies as st
 
+    short_planes = profile == "cascade_short"  # the cascade family on planes of a few rows only (kernels taller than the plane, stripes of one or two rows)
+    if short_planes:
+        profile = "cascade"
+
     @st.composite
     def net(draw):
         nb = NB(draw, st, profile)
@@ -738,7 +743,7 @@ def network(profile="exact", max_ops=6, dtypes=("int8", "int8", "int8", "uint8",
         dim = st.one_of(st.integers(1, 8), st.integers(1, 24), st.sampled_from([1, 2, 7, 8, 13, 16, 17]))
         if profile == "cascade" or (big and draw(st.integers(0, 2)) == 0):
             h, w = draw(st.sampled_from([32, 48, 64, 96, 128])), draw(st.sampled_from([16, 24, 32, 64]))
-            if profile == "cascade" and draw(st.integers(0, 5)) == 0:
+            if profile == "cascade" and (short_planes or draw(st.integers(0, 5)) == 0):
                 h = draw(st.sampled_from([4, 6, 8, 10]))  # short, wide planes: cascades of a few rows
             c = draw(st.sampled_from([1, 3, 4, 8, 16]))
         else:
@@ -762,8 +767,9 @@ def network(profile="exact", max_ops=6, dtypes=("int8", "int8", "int8", "uint8",
             # recurrent networks: UNIDIRECTIONAL_SEQUENCE_LSTM over [batch, time, feature] (or time-major) sequences - unrolled by the compiler into fully connected
             # operators, 16-bit element-wise arithmetic with the hardware's tanh/sigmoid activations, reads and writes of the variable state tensors at batch offsets -
             # optionally stacked, behind a producer on the NPU and in front of ordinary consumers
-            qx = nb.quant("int8")
-            x = nb.t("input", [draw(st.integers(1, 3)), draw(st.integers(1, 5)), draw(st.one_of(st.integers(1, 8), st.integers(1, 24), st.sampled_from([16, 17, 32])))], "int8", qx[0], qx[1])
+            rdt = draw(st.sampled_from(["int8", "int8", "int8", "int16"]))  # (16-bit activations: 8-bit weights, 64-bit biases)
+            qx = nb.quant(rdt)
+            x = nb.t("input", [draw(st.integers(1, 3)), draw(st.integers(1, 5)), draw(st.one_of(st.integers(1, 8), st.integers(1, 24), st.sampled_from([16, 17, 32])))], rdt, qx[0], qx[1])
             nb.inputs.append(x)
             cur = x
             if draw(st.integers(0, 2)) == 0:
